@@ -590,6 +590,15 @@ func (V *Verifier) SolveAll(obls []*Obligation) {
 		w2 = 1
 	}
 	run(w2, left, func(o *Obligation) { V.solveRendered(o, 2) })
+	if os.Getenv("GOVC_DEBUG_CAPS") != "" {
+		boundedUndecidedMu.Lock()
+		for k, v := range boundedUndecidedTab {
+			if v > 0 {
+				fmt.Fprintf(os.Stderr, "caps %s = %d\n", k, v)
+			}
+		}
+		boundedUndecidedMu.Unlock()
+	}
 	// pass 3: the few obligations still undecided are retried one at a time on the quiet machine with
 	// three times the budget (slow queries are the ones that time out under load); capped, so that a
 	// tree on which many obligations genuinely fail is not held up
@@ -676,13 +685,26 @@ func (V *Verifier) solveRendered(o *Obligation, pass int) {
 			res = solveResult{st, "z3-new", el, out}
 		} else {
 			done := false
-			if pass == 1 && o.Bounded && o.Goal.Op == "=" {
+			if o.Bounded && boundedUndecided(o.Func, 0) >= 24 {
+				res = solveResult{"unknown", "none", 0, "not attempted: 24 cases of this harness are already undecided or refuted"}
+				done = true
+			}
+			if !done && pass == 1 && o.Bounded && o.Goal.Op == "=" && boundedUndecided("sympy:"+o.Func, 0) < 48 {
 				if ok, out, el := sympyProve(o.Goal, o.JetHyp, time.Duration(V.opts.Timeout)*3*time.Second, strings.TrimSuffix(file, ".smt2")+".py"); ok {
 					res = solveResult{"unsat", "sympy", el, out}
 					done = true
 				} else {
 					res.time = el
+					// identities that need the path condition are left to the SMT solvers; once many cases of a
+					// harness are not identities, the normal-form attempt (which can take its whole budget) is skipped
+					boundedUndecided("sympy:"+o.Func, 1)
 				}
+			}
+			if !done && pass == 2 && o.Bounded && boundedUndecided(o.Func, 0) >= 24 {
+				// many cases of this harness are already undecided or refuted: the harness fails anyway, do not
+				// spend the portfolio budget on every remaining case
+				res = solveResult{"unknown", "none", res.time, "not attempted: 24 cases of this harness are already undecided or refuted"}
+				done = true
 			}
 			if !done && pass == 2 {
 				// retry the deepest instance-only variant on the now quiet machine, racing the portfolio
@@ -769,6 +791,9 @@ func (V *Verifier) solveRendered(o *Obligation, pass int) {
 	o.Solver = res.solver
 	o.Time = res.time
 	o.Output = res.output
+	if o.Bounded && !o.Cover && res.status != "unsat" {
+		boundedUndecided(o.Func, 1)
+	}
 	if os.Getenv("GOVC_PROGRESS") != "" {
 		fmt.Fprintf(os.Stderr, "progress %-8s %6.2fs %-14s %s\n", res.status, res.time, res.solver, o.Name)
 	}
@@ -1603,4 +1628,15 @@ func powAxiomInstances(as []*Term) []*Term {
 		}
 	}
 	return out
+}
+
+var boundedUndecidedTab = map[string]int{}
+var boundedUndecidedMu sync.Mutex
+
+// boundedUndecided adds d to, and returns, the number of undecided / refuted cases of a bounded harness.
+func boundedUndecided(harness string, d int) int {
+	boundedUndecidedMu.Lock()
+	defer boundedUndecidedMu.Unlock()
+	boundedUndecidedTab[harness] += d
+	return boundedUndecidedTab[harness]
 }
